@@ -82,6 +82,7 @@ type RunConfig struct {
 	Replay     map[string]any // concrete mode: tag -> value
 	StopAtFirst bool
 	NoMerge    bool
+	Witnesses  int // number of completed paths for which a model is extracted
 	QuickMs    int // incremental attempt budget before the one-shot fallback (0: no fallback)
 	Deadline   time.Time
 }
@@ -112,6 +113,7 @@ type RunResult struct {
 	Samples      []string               `json:"samples"`
 	Notes        []string               `json:"notes,omitempty"`
 	Outputs      []string               `json:"-"` // concrete-mode outcome lines
+	Witnesses    []map[string]any       `json:"-"` // solver models of completed paths (native differential)
 }
 
 type symVar struct {
@@ -156,6 +158,7 @@ type Engine struct {
 	pos       token.Pos
 	raceAtomic bool
 	allocLimit int
+	usedRand  bool
 	qcache    map[string]SatResult
 	lastCheck SatResult
 }
@@ -432,6 +435,7 @@ func (e *Engine) resetPath() {
 	e.race = nil
 	e.raceAtomic = false
 	e.allocLimit = 0
+	e.usedRand = false
 	e.tt.nfresh = 0
 }
 
@@ -459,6 +463,18 @@ func (e *Engine) Run() *RunResult {
 	for {
 		e.resetPath()
 		end := e.runPath(fn, pkg)
+		if end.reason == "ok" && e.cfg.Replay == nil && len(e.res.Witnesses) < e.cfg.Witnesses && e.threads == nil && !e.usedRand {
+			if w := e.model(nil); len(w) > 0 {
+				var picks []int
+				for _, d := range e.trace[:min(e.tpos, len(e.trace))] {
+					if d.kind == dPick {
+						picks = append(picks, int(d.val))
+					}
+				}
+				w["__picks"] = picks
+				e.res.Witnesses = append(e.res.Witnesses, w)
+			}
+		}
 		switch end.reason {
 		case "ok", "panic", "assertstop":
 			e.res.Paths++
